@@ -1,7 +1,7 @@
+import Secp.Proofs.FrontExport
+import Secp.Proofs.DriversCompact
+import Secp.Proofs.DriversRecover
 import Secp.Proofs.DriversBrute
-import Secp.Proofs.DriversVerify
-import Secp.Proofs.DriversMisc
-import Secp.Proofs.DriversFront
 import Secp.Proofs.Ecdsa
 import Secp.Props.C03
 import Secp.Proofs.Slices
@@ -73,12 +73,12 @@ regenerated definitions EQUAL the hand-written models the theorems above are abo
 
 /-- `Signature.Export` regenerated = `exportM` (r below 2^256, which every scalar is; no bound on s is needed) -/
 theorem export_regenerated (r s v : Nat) (hr : r < 2 ^ 256) : Secp.Gen.Drivers.exportGen (r, s, v) = exportM r s v :=
-  Secp.Proofs.DriversFront.export_regenerated r s v hr
+  Secp.Proofs.FrontExport.export_regenerated r s v hr
 
 /-- `Signature.ExportCompact` regenerated = `exportCompactM` for every code and offset -/
 theorem exportCompact_regenerated (r s v off : Nat) (first : Bool) :
     Secp.Gen.Drivers.exportCompact (r, s, v) first off = exportCompactM r s v first off :=
-  Secp.Proofs.DriversMisc.exportCompact_regenerated r s v off first
+  Secp.Proofs.DriversCompact.exportCompact_regenerated r s v off first
 
 
 /-- `RecoverCompact` regenerated: the parser followed by `RecoverPublicKey`, flag passed through -/
@@ -90,7 +90,7 @@ theorem recoverCompact_front (sig h : Bytes) :
          match Secp.Gen.Drivers.recoverPublicKey (r, s, c) h with
          | .ok pk => DR.ok (pk, comp)
          | .err e => DR.err e | .panic => DR.panic | .fuel => DR.fuel | .undef => DR.undef) :=
-  Secp.Proofs.DriversFront.recoverCompact_front sig h
+  Secp.Proofs.FrontExport.recoverCompact_front sig h
 
 
 /-- `Signature.RecoverPublicKey` (signature.go) regenerated — the panic on a missing code, the overflow-bit branch with
@@ -103,7 +103,7 @@ theorem recoverPublicKey_regenerated (r s v : Nat) (h : Bytes) (hr : r < N) :
        | .error .Panic => DR.panic
        | .error .ErrSigOverflowsPrime => DR.err SigErr.ErrSigOverflowsPrime
        | .error .ErrPointNotOnCurve => DR.err SigErr.ErrPointNotOnCurve) :=
-  Secp.Proofs.DriversVerify.recoverPublicKey_regenerated r s v h hr
+  Secp.Proofs.DriversRecover.recoverPublicKey_regenerated r s v h hr
 
 /-- `Signature.BruteforceRecoveryCode` regenerated: it always terminates normally, finds the FIRST code 0..3 whose
     recovery yields the key (overflow codes included), leaves that code — or 0xff — in the object, and does not depend
@@ -112,6 +112,6 @@ theorem bruteforce_regenerated (r s v : Nat) (h : Bytes) (Q : Nat × Nat) (hr : 
     Secp.Gen.Drivers.bruteforceRecoveryCode (r, s, v) h Q =
       DR.ok ((bruteforceM h r s Q).1, (r, s, (bruteforceM h r s Q).2)) :=
   Secp.Proofs.DriversBrute.bruteforce_regenerated
-    (fun r s v h hr => Secp.Proofs.DriversVerify.recoverPublicKey_regenerated r s v h hr) r s v h Q hr
+    (fun r s v h hr => Secp.Proofs.DriversRecover.recoverPublicKey_regenerated r s v h hr) r s v h Q hr
 
 end Secp.Props.C07
